@@ -215,6 +215,31 @@ impl Check for C13 {
                 }
             }
         });
+        // an image of more than 65536 texels on a surface of more than 65536 pixels
+        run.bound("large image", "300x300 image (texel rows and columns with periods 251 / 241) on a 300x300 surface x pad/repeat x nearest/bilinear x 3 source transforms".to_string());
+        run.par(4, |s, l| {
+            let repeat = s % 2 == 1;
+            let bilinear = s / 2 == 1;
+            let data: Vec<u32> = (0..90000u32).map(|i| { let (x, y) = (i % 300, i / 300); let (a, b) = (x % 251, y % 241); 0xff000000 | (a << 16) | (b << 8) | ((a + b) & 0xff) }).collect();
+            for t in [IDENT, [1., 0., 0., 1., -3., 5.], [0.5, 0., 0., 0.75, 20.25, 10.5]] {
+                let src = SrcSpec::Image { w: 300, h: 300, data: data.clone(), repeat, bilinear, xf: t };
+                let scene = Scene { w: 300, h: 300, dst: Dst::White, ops: vec![Op::Fill(PathSpec::rect(-10., -10., 400., 400.), src, Opts { mode: BlendMode::Src, alpha: 1.0, aa: true })] };
+                l.states += 1;
+                l.transitions += 1;
+                l.traces += 1;
+                l.evals += 1;
+                match eval(&scene) {
+                    Ok((hsh, n, interp)) => {
+                        l.outcome(hsh);
+                        l.count("pixels_checked", n);
+                        if interp {
+                            l.nontrivial += 1;
+                        }
+                    }
+                    Err(v) => run.report(40_000 + s, v),
+                }
+            }
+        });
         // very long strips with sampling matrices that are almost, but not exactly, integer
         // translations: the drift only crosses a texel boundary thousands of pixels out
         run.bound("near-identity on 8200-long strips", "8200x1 and 1x8200 surfaces, 251-texel image, pad/repeat x nearest/bilinear x source scale 1.00009 / 0.99991 along the strip, the same as a CTM, and a 1e-5 skew".to_string());
